@@ -2443,8 +2443,10 @@ def bindings(bindings: Mapping[Var, Any] | None = None):
     logger.debug(
         f"Binding thread-local values for Vars: {', '.join(map(str, m.keys()))}"
     )
+    # Push before entering the `try`: if establishing the bindings fails there is
+    # nothing of ours to pop, and popping would remove the enclosing form's frame.
+    push_thread_bindings(m)
     try:
-        push_thread_bindings(m)
         yield
     finally:
         pop_thread_bindings()
